@@ -1712,3 +1712,218 @@ Qed.
 (* regression (pre 779cf12): a handle derived from a lenient CAS was strict *)
 Theorem lenient_lost_refuted : exists hd name, h_lenient (new_handle_old name hd) <> h_lenient hd.
 Proof. exists (mkHandle "_InitialView" true), "v"%string. cbn. discriminate. Qed.
+
+(* ================================================================ the type system grows during the history *)
+
+(* every state reached from a fresh CAS by any history of operations AND type declarations; `ts` is the type system
+   as it stands at the end of that history *)
+Definition reachable_ev (ts0 : tsinfo) (l : bool) (heap : list (oid * fsobj)) (ts : tsinfo) (s : state) : Prop :=
+  exists evs, fst (run_ev ts0 (init0 l heap) evs) = (ts, s).
+
+Lemma step_ev_inv ts l s e : inv l s -> inv l (snd (fst (step_ev ts s e))).
+Proof.
+  intros Hi. destruct e as [o|n p]; cbn [step_ev].
+  - pose proof (step_inv ts l s o Hi) as H. destruct (step ts s o) as [s1 ob]. exact H.
+  - destruct (memb n (ts_types ts)); exact Hi.
+Qed.
+
+Lemma step_ev_ainv ts s e : ainv (st s) -> ainv (st (snd (fst (step_ev ts s e)))).
+Proof.
+  intros Ha. destruct e as [o|n p]; cbn [step_ev].
+  - pose proof (ainv_step ts s o Ha) as H. destruct (step ts s o) as [s1 ob]. exact H.
+  - destruct (memb n (ts_types ts)); exact Ha.
+Qed.
+
+Lemma run_ev_inv l evs : forall ts s, inv l s -> inv l (snd (fst (run_ev ts s evs))).
+Proof.
+  induction evs as [|e r IH]; intros ts s Hi; [exact Hi|].
+  cbn [run_ev]. pose proof (step_ev_inv ts l s e Hi) as H1. destruct (step_ev ts s e) as [[ts1 s1] ob]. cbn [fst snd] in H1.
+  specialize (IH ts1 s1 H1). destruct (run_ev ts1 s1 r) as [[ts2 s2] obs]. exact IH.
+Qed.
+
+Lemma run_ev_ainv evs : forall ts s, ainv (st s) -> ainv (st (snd (fst (run_ev ts s evs)))).
+Proof.
+  induction evs as [|e r IH]; intros ts s Ha; [exact Ha|].
+  cbn [run_ev]. pose proof (step_ev_ainv ts s e Ha) as H1. destruct (step_ev ts s e) as [[ts1 s1] ob]. cbn [fst snd] in H1.
+  specialize (IH ts1 s1 H1). destruct (run_ev ts1 s1 r) as [[ts2 s2] obs]. exact IH.
+Qed.
+
+Theorem reachable_ev_inv ts0 l heap ts s : heap0_okb heap = true -> reachable_ev ts0 l heap ts s -> inv l s.
+Proof.
+  intros H [evs E]. pose proof (run_ev_inv l evs ts0 (init0 l heap) (init0_inv l heap H)) as Hi.
+  rewrite E in Hi. exact Hi.
+Qed.
+
+Theorem reachable_ev_ainv ts0 l heap ts s : labels_okb heap = true -> reachable_ev ts0 l heap ts s -> ainv (st s).
+Proof.
+  intros H [evs E].
+  assert (H0 : ainv (st (init0 l heap))) by (apply (reachable_ainv ts0 l heap); [exact H|exists []; reflexivity]).
+  pose proof (run_ev_ainv evs ts0 (init0 l heap) H0) as Ha. rewrite E in Ha. exact Ha.
+Qed.
+
+(* histories without declarations are the histories of `reachable` *)
+Lemma run_ev_ops ts ops : forall s, run_ev ts s (map EOp ops) = (ts, fst (run ts s ops), snd (run ts s ops)).
+Proof.
+  induction ops as [|o r IH]; intros s; [reflexivity|].
+  cbn [map run_ev step_ev run]. destruct (step ts s o) as [s1 ob]. rewrite IH.
+  destruct (run ts s1 r) as [s2 obs]. reflexivity.
+Qed.
+
+Theorem reachable_reachable_ev ts l heap s : reachable ts l heap s -> reachable_ev ts l heap ts s.
+Proof. intros [ops ->]. exists (map EOp ops). rewrite run_ev_ops. reflexivity. Qed.
+
+Lemma run_ev_app ts a b s :
+  fst (run_ev ts s (a ++ b)) = fst (run_ev (fst (fst (run_ev ts s a))) (snd (fst (run_ev ts s a))) b).
+Proof.
+  revert ts s. induction a as [|e r IH]; intros ts s; [reflexivity|].
+  cbn [app run_ev]. destruct (step_ev ts s e) as [[ts1 s1] ob]. specialize (IH ts1 s1).
+  destruct (run_ev ts1 s1 (r ++ b)) as [[ts2 s2] obs2]. destruct (run_ev ts1 s1 r) as [[ts3 s3] obs3]. cbn [fst snd] in *. exact IH.
+Qed.
+
+Theorem reachable_ev_step ts0 l heap ts s e :
+  reachable_ev ts0 l heap ts s -> reachable_ev ts0 l heap (fst (fst (step_ev ts s e))) (snd (fst (step_ev ts s e))).
+Proof.
+  intros [evs E]. exists (evs ++ [e]). rewrite run_ev_app, E. cbn [fst snd run_ev].
+  destruct (step_ev ts s e) as [[ts1 s1] ob]. reflexivity.
+Qed.
+
+(* a declaration only adds: what was a contained type / a document-annotation type stays one; the new name is
+   contained, and it is a document-annotation type when its parent is one *)
+Lemma memb_app_l x a b : memb x a = true -> memb x (a ++ b) = true.
+Proof. rewrite !memb_In. intros H. apply in_or_app. left. exact H. Qed.
+
+Lemma memb_app_last x a : memb x (a ++ [x]) = true.
+Proof. rewrite memb_In. apply in_or_app. right. left. reflexivity. Qed.
+
+Theorem declare_grows n p ts x :
+  (memb x (ts_types ts) = true -> memb x (ts_types (declare n p ts)) = true) /\
+  (memb x (ts_family ts) = true -> memb x (ts_family (declare n p ts)) = true).
+Proof.
+  unfold declare. cbn [ts_types ts_family]. split; intros H; [apply memb_app_l; exact H|].
+  destruct (memb p (ts_family ts)); [apply memb_app_l|]; exact H.
+Qed.
+
+Theorem declare_subtype n p ts :
+  memb n (ts_types (declare n p ts)) = true /\
+  (memb p (ts_family ts) = true -> memb n (ts_family (declare n p ts)) = true).
+Proof.
+  unfold declare. cbn [ts_types ts_family]. split; [apply memb_app_last|].
+  intros ->. apply memb_app_last.
+Qed.
+
+Theorem declare_step ts s n p :
+  memb n (ts_types ts) = false -> step_ev ts s (EDeclare n p) = (declare n p ts, s, ObUnit).
+Proof. intros H. cbn [step_ev]. rewrite H. reflexivity. Qed.
+
+(* handles of one view are interchangeable over histories with declarations as well *)
+Definition retarget_ev (h' : nat) (e : ev) : ev :=
+  match e with EOp o => EOp (retarget h' o) | EDeclare n p => EDeclare n p end.
+
+Inductive hequiv_ev : tsinfo -> state -> list ev -> list ev -> Prop :=
+| hee_nil : forall ts s, hequiv_ev ts s [] []
+| hee_cons : forall ts s e i j a b r1 r2,
+    nth_error (hs s) i = Some a -> nth_error (hs s) j = Some b -> h_view a = h_view b ->
+    hequiv_ev (fst (fst (step_ev ts s (retarget_ev i e)))) (snd (fst (step_ev ts s (retarget_ev i e)))) r1 r2 ->
+    hequiv_ev ts s (retarget_ev i e :: r1) (retarget_ev j e :: r2).
+
+Theorem handles_equivalent_ev l ts s evs1 evs2 :
+  inv l s -> hequiv_ev ts s evs1 evs2 -> run_ev ts s evs1 = run_ev ts s evs2.
+Proof.
+  intros Hi H. induction H as [ts s|ts s e i j a b r1 r2 Ha Hb Hv Hr IH]; [reflexivity|].
+  cbn [run_ev].
+  assert (E : step_ev ts s (retarget_ev i e) = step_ev ts s (retarget_ev j e)).
+  { destruct e as [o|n p]; cbn [retarget_ev step_ev]; [|reflexivity].
+    rewrite (handles_equivalent ts l s i j a b o Hi Ha Hb Hv). reflexivity. }
+  rewrite <- E. pose proof (step_ev_inv ts l s (retarget_ev i e) Hi) as Hi'.
+  destruct (step_ev ts s (retarget_ev i e)) as [[ts1 s1] ob]. cbn [fst snd] in *. rewrite (IH Hi'). reflexivity.
+Qed.
+
+(* an instance of a document-annotation type added to a view that holds none IS that view's document annotation:
+   every handle of the view — whenever it was obtained and whatever it was used for before — finds it, and a
+   document_language read or write through any of them creates nothing.  `ts` is the type system at the time of the
+   calls: with declare_subtype, in particular a type system in which the instance's type was declared after the
+   handles were obtained and after they had looked for the document annotation. *)
+Theorem added_family_instance_is_docann ts l s h hd o fs keep s1 :
+  inv l s -> ainv (st s) -> nth_error (hs s) h = Some hd ->
+  hget o (st_heap (st s)) = Some fs -> memb (f_type fs) (ts_family ts) = true ->
+  family_count ts (st s) (h_view hd) = 0%nat ->
+  step ts s (OAdd h o keep) = (s1, ObUnit) ->
+  view_docann ts (st s1) (h_view hd) = Some o /\ family_count ts (st s1) (h_view hd) = 1%nat /\ hs s1 = hs s.
+Proof.
+  intros Hi Ha Hh Hg Hfam Hc. unfold step. cbn [op_handle]. rewrite Hh. cbn [step_h].
+  destruct (add_fs ts (st s) hd o keep) as [s'|e|] eqn:E; [|destruct e; discriminate|discriminate].
+  intros Es. injection Es as <-. cbn [st hs].
+  destruct (add_fs_inv _ _ _ _ _ _ E) as (fs' & v & id & Hg' & Hv & _ & Ev & _ & _ & _ & _ & Eh & _).
+  rewrite Hg in Hg'. injection Hg' as <-.
+  assert (Hidx : view_index (st s) (h_view hd) = v_index v) by (unfold view_index; rewrite Hv; reflexivity).
+  assert (Hidx' : view_index s' (h_view hd) = v_index v ++ [o]).
+  { unfold view_index. rewrite Ev, (alookup_amap_same _ _ _ _ Hv). reflexivity. }
+  assert (Hnone : forall x, In x (v_index v) -> is_family ts (st s) x = false).
+  { intros x Hx. unfold family_count in Hc. rewrite Hidx in Hc.
+    destruct (is_family ts (st s) x) eqn:Ex; [|reflexivity].
+    assert (Hin : In x (filter (is_family ts (st s)) (v_index v))) by (apply filter_In; auto).
+    destruct (filter (is_family ts (st s)) (v_index v)); [contradiction|discriminate]. }
+  assert (Ho : is_family ts (st s) o = true) by (unfold is_family; rewrite Hg; exact Hfam).
+  assert (Hold : forall x, In x (v_index v) -> is_family ts s' x = false).
+  { intros x Hx. rewrite <- (Hnone x Hx). unfold is_family. rewrite Eh.
+    assert (x <> o). { intros ->. rewrite (Hnone o Hx) in Ho. discriminate. }
+    rewrite hget_hput_other by assumption. reflexivity. }
+  assert (Ho' : is_family ts s' o = true).
+  { unfold is_family. rewrite Eh, hget_hput_same. cbn [added_fs f_type]. exact Hfam. }
+  split; [|split; [|reflexivity]].
+  - unfold view_docann. rewrite Hidx', find_app_none.
+    + cbn [find]. rewrite Ho'. reflexivity.
+    + destruct (find (is_family ts s') (v_index v)) as [y|] eqn:Ey; [|reflexivity].
+      apply find_some in Ey. destruct Ey as [Hy1 Hy2]. rewrite (Hold y Hy1) in Hy2. discriminate.
+  - unfold family_count. rewrite Hidx', filter_app, (filter_nil_all _ _ Hold). cbn [filter app]. rewrite Ho'. reflexivity.
+Qed.
+
+Theorem late_subtype_found_by_every_handle ts0 l s n p h hd j hb o fs keep s1 op :
+  let ts := declare n p ts0 in
+  inv l s -> ainv (st s) -> memb p (ts_family ts0) = true ->
+  (l = true \/ memb DOCANN (ts_types ts0) = true) -> memb DOCANN (ts_family ts0) = true ->
+  nth_error (hs s) h = Some hd -> nth_error (hs s) j = Some hb -> h_view hb = h_view hd ->
+  hget o (st_heap (st s)) = Some fs -> f_type fs = n ->
+  family_count ts (st s) (h_view hd) = 0%nat ->
+  step ts s (OAdd h o keep) = (s1, ObUnit) ->
+  (op = OGetLang j \/ exists v, op = OSetLang j v) ->
+  let s2 := fst (step ts s1 op) in
+  view_docann ts (st s1) (h_view hd) = Some o /\
+  view_docann ts (st s2) (h_view hd) = Some o /\ family_count ts (st s2) (h_view hd) = 1%nat /\ hs s2 = hs s.
+Proof.
+  cbv zeta. intros Hi Ha Hp Hok Hd Hh Hj Hv Hg Ht Hc Hs Hop.
+  assert (Hfam : memb (f_type fs) (ts_family (declare n p ts0)) = true).
+  { rewrite Ht. apply declare_subtype. exact Hp. }
+  destruct (added_family_instance_is_docann _ l s h hd o fs keep s1 Hi Ha Hh Hg Hfam Hc Hs) as (H1 & H2 & H3).
+  split; [exact H1|].
+  assert (Hi1 : inv l s1). { pose proof (step_inv (declare n p ts0) l s (OAdd h o keep) Hi) as X. rewrite Hs in X. exact X. }
+  assert (Ha1 : ainv (st s1)). { pose proof (ainv_step (declare n p ts0) s (OAdd h o keep) Ha) as X. rewrite Hs in X. exact X. }
+  assert (Hj1 : nth_error (hs s1) j = Some hb) by (rewrite H3; exact Hj).
+  assert (Hok' : l = true \/ memb DOCANN (ts_types (declare n p ts0)) = true).
+  { destruct Hok as [Hok|Hok]; [left; exact Hok|right; apply declare_grows; exact Hok]. }
+  assert (Hd' : memb DOCANN (ts_family (declare n p ts0)) = true) by (apply declare_grows; exact Hd).
+  destruct (docann_once_step (declare n p ts0) l s1 j hb op Hi1 Ha1 Hj1 Hok' Hd' Hop) as (Hc2 & (d & Hd1 & Hd2) & Hhs & _).
+  rewrite Hv in *. rewrite H2 in *. cbn [Nat.eqb] in Hc2.
+  assert (Hne : 1%nat <> 0%nat) by discriminate. specialize (Hd2 Hne). rewrite H1 in Hd2. injection Hd2 as <-.
+  split; [exact Hd1|]. split; [exact Hc2|]. rewrite Hhs. exact H3.
+Qed.
+
+(* ================================================================ the constructor's sofa arguments *)
+
+(* Cas(sofa_string = t, sofa_mime = m): the initial view's sofa holds exactly what was given — ANY given MIME type,
+   the empty string included; "text/plain" only when none was given — whatever else the constructor does *)
+Theorem ctor_sofa_as_given ts k heap t :
+  heap0_okb heap = true -> k_text k = Some t ->
+  exists x, view_sofa (st (init ts k heap)) "_InitialView" = Some x /\
+    s_text x = Some t /\ s_mime x = Some (match k_mime k with Some m => m | None => "text/plain"%string end) /\
+    s_uri x = None /\ s_arr x = None.
+Proof.
+  intros H0 Ht. unfold init.
+  pose (x0 := mkSofa "_InitialView" 1 1 None None None None None).
+  assert (Hx : view_sofa (st (init0 (k_lenient k) heap)) "_InitialView" = Some x0) by reflexivity.
+  rewrite (sofa_is_last_written ts (k_lenient k) (ctor_ops k) _ _ _ (init0_inv _ _ H0) Hx).
+  eexists. split; [reflexivity|].
+  unfold ctor_ops. rewrite Ht. destruct (k_lang k) as [lg|]; cbn [app apply_writes].
+  - repeat split; reflexivity.
+  - repeat split; reflexivity.
+Qed.
